@@ -7,6 +7,7 @@ package mavl
 
 import (
 	"fmt"
+	"strings"
 
 	dbm "github.com/33cn/chain33/common/db"
 )
@@ -34,7 +35,17 @@ func VerifLoadTree(db dbm.DB, root []byte) (*VerifNode, error) {
 func verifLoad(db dbm.DB, hash []byte, path string) (*VerifNode, error) {
 	buf, err := db.Get(hash)
 	if err != nil || len(buf) == 0 {
-		return nil, fmt.Errorf("node record missing at path %q (height-prefixed=%v)", path, len(hash) > sha256Len)
+		kind := "bare-hash"
+		if strings.HasPrefix(string(hash), leafNodePrefix) {
+			kind = "prefixed-leaf"
+		} else if strings.HasPrefix(string(hash), hashNodePrefix) {
+			kind = "prefixed-inner"
+		}
+		where := "below the root (path " + path + ")"
+		if path == "" {
+			where = "root"
+		}
+		return nil, fmt.Errorf("ErrNodeNotExist: %s node record missing, %s", kind, where)
 	}
 	n, err := MakeNode(buf, nil)
 	if err != nil {
